@@ -514,7 +514,7 @@ def c18(res):
     return generic(res, "C18", "Properties/C18.v", [("corr-regexps", ["rxcheck", "-regexps", os.path.join(V.GEN_OUT, "regexps.tsv"), "-only", "css_", "-n", "600"]), ("corr-kwhandlers", kwh)], None,
                    "the regexps, keyword lists and default handler table of css/handlers.go",
                    "theorems: reflection (verified emptiness procedure) on the regenerated css regexps: whole-value and hostile-free for all string lengths, keyword lists, table lookup shape; "
-                   "whole handlers that are disjunctions of conditions (132 functions, 167 table entries) proved to accept no hostile value; recursiveCheck composes; "
+                   "whole handlers that are disjunctions of conditions (141 functions, 180 table entries) proved to accept no hostile value; recursiveCheck composes; "
                    "tie: every css regexp run by Go's engine and by the extracted matcher; every such handler vs its model (own keywords and generic values, joined, padded with "
                    "ASCII and multi-byte white space, upper-cased, mutated, with hostile fragments); oracle (the property's own bounded-exhaustive quantifier): for all 213 table entries, values from the "
                    "handler's vocabulary with 18 hostile fragments glued / appended / prepended / inserted at every byte position and token boundary; unknown properties reject everything. "
